@@ -1,3 +1,170 @@
-import RlibModel.Model.Common
-/-! Line-protocol driver for engine `lambda` (stub: to be written by the engine's author). -/
-def main : IO Unit := pure ()
+import RlibModel.Model.Lambda
+/-!
+Line-protocol driver for engine `lambda` (property C20).
+
+One shape per line:   `<caps> <args> <ret> <call>`
+  caps  `-` or `c0:m,c1:s,…`   (declared order; `m` = `&mut`, `s` = `&`)
+  args  `-` or `a0,a1,…`
+  ret   `noret` or `ret:<type without blanks>`
+  call  `tc` (recursive calls written `f!(x, y,)`) or `ntc` (`f!(x, y)`)
+
+Answer:  `M <wiring> | V <wiring> | S <wiring>` where
+  M = the token munchers run rule by rule (`expandSteps`) and the local macro run on a call with one
+      expression per argument (`callIter`);
+  S = the closed form the theorems of Props/C20 prove it equal to (`specExpansion`), `any` outside the
+      supported shapes (no argument, repeated names).
+  wiring = `fn(a0,&c1,&mut c0)->T rec(c1,c0) clo(a0;a0;&c1,&mut c0) steps=N call=K` (`stuck` if no rule applies).
+-/
+open Rlib Rlib.Lambda
+
+def showParam : Name × Kind → String
+  | (n, .arg) => n
+  | (n, .shared) => "&" ++ n
+  | (n, .mutable) => "&mut " ++ n
+
+def commaSep (xs : List String) : String := ",".intercalate xs
+
+def showExpansion (e : Expansion) : String :=
+  s!"fn({commaSep (e.params.map showParam)})->{e.ret} rec({commaSep (e.recCallTail.map (·.1))}) " ++
+  s!"clo({commaSep e.closureParams};{commaSep e.closureCallArgs};{commaSep (e.closureCallTail.map showParam)})"
+
+/-- Number of local-macro steps until `_lambda_name_(…)` is emitted for a call with the given expressions,
+    and what is emitted (user expressions, appended names). -/
+def runCall (e : Expansion) (exprs : List String) (tc : Bool) : Option (Nat × List String × List String) :=
+  let rec go (fuel used : Nat) (st : CallSt String) : Option (Nat × List String × List String) :=
+    match st with
+    | .done us tail => some (used, us, tail.map (·.1))
+    | st =>
+      match fuel with
+      | 0 => none
+      | fuel + 1 => (callStep e st).bind (go fuel (used + 1))
+  go 3 0 (.inv exprs tc)
+
+def showCall (exprs : List String) : Option (Nat × List String × List String) → String
+  | none => "call=stuck"
+  | some (k, us, tail) =>
+    if us = exprs then s!"call={k}:({commaSep (us ++ tail)})" else s!"call={k}:BAD({commaSep (us ++ tail)})"
+
+def parseCaps (s : String) : Option (List (Name × Bool)) :=
+  if s = "-" then some [] else
+  (s.splitOn ",").mapM fun p =>
+    match p.splitOn ":" with
+    | [n, "m"] => if n = "" then none else some (n, true)
+    | [n, "s"] => if n = "" then none else some (n, false)
+    | _ => none
+
+def parseArgs (s : String) : Option (List Name) :=
+  if s = "-" then some [] else
+  (s.splitOn ",").mapM fun p => if p = "" then none else some p
+
+def parseRet (s : String) : Option (Option Ty) :=
+  if s = "noret" then some none
+  else if s.startsWith "ret:" then some (some (s.drop 4).toString)
+  else none
+
+def handle (line : String) : String :=
+  match tokens line with
+  | [c, a, r, call] =>
+    match parseCaps c, parseArgs a, parseRet r, (if call = "tc" then some true else if call = "ntc" then some false else none) with
+    | some caps, some args, some ret, some tc =>
+      let inv : Inv := { caps := caps, args := args, ret := ret }
+      let exprs := args.map (fun x => "e_" ++ x)
+      let m :=
+        match expandSteps inv with
+        | none => "stuck"
+        | some (e, n) => s!"{showExpansion e} steps={n} {showCall exprs (runCall e exprs tc)}"
+      let s :=
+        if Supported inv then
+          let e := specExpansion inv
+          s!"{showExpansion e} steps={caps.length + args.length + 2} call={if tc then 1 else 2}:({commaSep (exprs ++ (specTail caps).map (·.1))})"
+        else "any"
+      answer m s
+    | _, _, _, _ => badLine line
+  | _ => badLine line
+
+/-! ## Running the semantic model on the `arith-i64` body template (second line kind)
+
+`run <caps> <args> <ret> <call> init=<v,…> <in1> <in2> <in3>`: the body template 0 of tools/c20_gen.py (all values `i64`)
+as an interaction tree, evaluated three times in a row (state carried over)
+  M/V: by `closureG` over the expansion produced by the token munchers (`expandSteps`),
+  S:   by the explicit recursion `evalE`;
+printed like the generated Rust program prints its results (`r1;r2;r3;c0=…;c1=…;`, without the trace hash). -/
+
+def w64 (z : Int) : Int := wrapS 64 z
+def xor64 (a b : Int) : Int := w64 (Int.ofNat ((wrapU 64 a).toNat ^^^ (wrapU 64 b).toNat))
+
+/-- read the names in order, then continue with their values -/
+def readAll : List Name → (List Val → Body) → Body
+  | [], k => k []
+  | n :: ns, k => .read n fun v => readAll ns fun vs => k (v :: vs)
+
+/-- `*c = f(*c)` for every listed mutable capture `(name, position)`, in order -/
+def updAll : List (Name × Nat) → (Nat → Val → Val) → Body → Body
+  | [], _, k => k
+  | (c, i) :: rest, f, k => .read c fun cv => .write c (f i cv) (updAll rest f k)
+
+def arithBody (inv : Inv) : Body :=
+  let idx := (List.range inv.caps.length).zip inv.caps
+  let shared := idx.filterMap fun (i, (n, m)) => if m then none else some (n, i)
+  let muts := idx.filterMap fun (i, (n, m)) => if m then some (n, i) else none
+  let hasRet := inv.ret.isSome
+  readAll inv.args fun as =>
+  readAll (shared.map (·.1)) fun cs =>
+  let a0 := as.headD 0
+  let last := as.getLastD 0
+  let sh := (cs.zip (shared.map (·.2))).foldl (fun acc (c, i) => w64 (acc + w64 (c * (2 * (i : Int) + 3)))) 1
+  let step31 (c v salt : Int) : Int := w64 (w64 (w64 (c * 31) + v) + salt)
+  let rest := (as.drop 1).zip (List.range (as.length - 1))
+  let rec1 : List Val := (a0 - 1) :: rest.map fun (a, k) => w64 (a + ((k : Int) + 1))
+  let rec2 : List Val := (a0 - 2) :: rest.map fun (a, k) => xor64 (w64 (a * 3)) ((k : Int) + 1)
+  let after (v : Int) (k : Body) : Body := updAll muts (fun i c => step31 c v (10 + (i : Int))) k
+  updAll muts (fun i c => step31 c (xor64 a0 sh) ((i : Int) + 1)) <|
+  if a0 ≤ 0 then .ret (if hasRet then w64 (sh + last) else 0)
+  else if a0.tmod 3 = 0 then
+    .call rec1 fun x =>
+    if hasRet then after x (.ret (w64 (x + 1))) else after a0 (.ret 0)
+  else
+    .call rec1 fun x =>
+    if hasRet then .call rec2 fun y => after (xor64 x y) (.ret (w64 (w64 (x * 7) + y)))
+    else after (a0 + 1) (.call rec2 fun _ => .ret 0)
+
+def storeOf (kv : List (Name × Val)) : Store := fun n => (kv.lookup n).getD 0
+
+/-- call `f` on each input in turn, carrying the store; render like the Rust program -/
+def runCalls (f : List Val → Store → Res) (hasRet : Bool) : List (List Val) → Store → String → Except Err (String × Store)
+  | [], s, acc => .ok (acc, s)
+  | i :: is, s, acc =>
+    match f i s with
+    | .error e => .error e
+    | .ok (v, s') => runCalls f hasRet is s' (acc ++ (if hasRet then toString v else "()") ++ ";")
+
+def showErr : Err → String
+  | .fuel => "fuel" | .unbound n => s!"unbound:{n}" | .notMutable n => s!"notMutable:{n}"
+  | .arity => "arity" | .kind n => s!"kind:{n}"
+
+def showRun (caps : List (Name × Bool)) : Except Err (String × Store) → String
+  | .error e => "error:" ++ showErr e
+  | .ok (acc, s) => acc ++ String.join (caps.map fun (n, _) => s!"{n}={s n};")
+
+def handleRun (line : String) (c a r call ini : String) (ins : List String) : String :=
+  match parseCaps c, parseArgs a, parseRet r, (if ini.startsWith "init=" then parseIntsComma? (ini.drop 5).toString else none),
+        ins.mapM parseIntsComma? with
+  | some caps, some args, some ret, some inits, some inputs =>
+    if call ≠ "tc" ∧ call ≠ "ntc" then badLine line else
+    let inv : Inv := { caps := caps, args := args, ret := ret }
+    let body := arithBody inv
+    let s0 := storeOf ((caps.map (·.1)).zip inits)
+    let spec := showRun caps (runCalls (evalE inv body 64) ret.isSome inputs s0 "")
+    let m :=
+      match expandSteps inv with
+      | none => "stuck"
+      | some (e, _) => showRun caps (runCalls (closureG e body 64) ret.isSome inputs s0 "")
+    answer m (if Supported inv then spec else "any")
+  | _, _, _, _, _ => badLine line
+
+def handleAny (line : String) : String :=
+  match tokens line with
+  | "run" :: c :: a :: r :: call :: ini :: ins => handleRun line c a r call ini ins
+  | _ => handle line
+
+def main : IO Unit := driverMain handleAny
